@@ -146,13 +146,14 @@ def shortenKey (prefixes : List Key) (key : Key) : Key :=
   | some p => key.drop p.length
   | none => []
 
-/-- `sensors[name] = TelstateSensorGetter(telstate, key)` over `telstate.keys()` (sorted) restricted to
-    mutable keys: the last key that shortens to `name` wins -/
+/-- `sensors[name] = TelstateSensorGetter(telstate, name)` over `telstate.keys()` restricted to mutable keys: every
+    key that shortens to `name` registers the sensor under its SHORT name (since /repo fix for
+    C18-sensor-last-sorted-key; before, the full key of the last such key in sorted order was kept) -/
 def sensorKey (prefixes : List Key) (mutableKeys : List Key) (name : Key) : Option Key :=
   if name = [] then none
-  else (mutableKeys.filter fun k => shortenKey prefixes k = name).getLast?
+  else if (mutableKeys.any fun k => shortenKey prefixes k = name) then some name else none
 
-/-- reading the sensor goes through the view again with the *full* key -/
+/-- reading the sensor goes through the view with that name: the most specific namespace answers -/
 def sensorRead (st : Store) (prefixes : List Key) (mutableKeys : List Key) (name : Key) : Option Val :=
   (sensorKey prefixes mutableKeys name).bind (get st prefixes)
 
